@@ -27,6 +27,8 @@ def rules(ctx):
     ctx.rule('R07.1', "builders neither mutate nor alias their operands", floor=16)
     ctx.rule('R07.2', "negated gates are NOT(positive gate) over the same operands; NOT is 1 - BUFFER", floor=4)
     ctx.rule('R07.3', "recursive folds recurse on a strictly shorter tuple and have both base cases", floor=4)
+    ctx.rule('R07.4', "a model-valued expression is never truth-tested (an identically false sub-expression is an "
+                      "empty, falsy model)", floor=8)
     fns = {b: P.func('_satisfiability.%s' % b) for b in BUILDERS}
     for name, fn in fns.items():
         fe = E.effects(fn)
@@ -95,3 +97,28 @@ def rules(ctx):
                      "empty and one-operand base cases return before the recursion" if nonempty and notone else
                      "recursion is reachable with %s operands: unbounded recursion" %
                      ('zero' if not nonempty else 'one'))
+
+    # ---------------------------------------------------------------- R07.4
+    for name, fn in fns.items():
+        tests = []
+        for n in ast.walk(fn.node):
+            if isinstance(n, (ast.If, ast.While, ast.IfExp, ast.Assert)):
+                tests.append(n.test)
+            elif isinstance(n, ast.BoolOp):
+                tests += n.values[:-1]
+            elif isinstance(n, ast.UnaryOp) and isinstance(n.op, ast.Not):
+                tests.append(n.operand)
+        bad = []
+        for t in tests:
+            t0 = t
+            while isinstance(t0, ast.UnaryOp) and isinstance(t0.op, ast.Not):
+                t0 = t0.operand
+            if isinstance(t0, (ast.Compare, ast.BoolOp)) or (isinstance(t0, ast.Call) and is_name(t0.func, 'isinstance', 'len', 'callable')):
+                continue
+            ts = R.infer(t0, fn, None)
+            if any(R.is_model_class(x) for x in ts):
+                bad.append(t0)
+        ctx.inst('R07.4', fn, 'truth tests in %s' % name, not bad,
+                 "no model-valued expression is truth-tested" if not bad else
+                 "`%s` (a model) is used as a truth value in %s: a sub-expression that is identically false is an empty "
+                 "model and is treated like `unset`" % (src(bad[0]), name))
